@@ -188,17 +188,19 @@ def check(report: Report, repo: Repo) -> None:
 
     def tagged(nm: str, tagv: str, depthv: Any) -> Obj:
         p_ = Obj("torch.nn.Parameter", term=T("param", (nm,)))
-        p_.attrs.update({"mup_type": tagv, "mup_scaling_depth": depthv})
+        # (the embedding table is frozen -- a pretrained table -- when the transform is applied)
+        p_.attrs.update({"mup_type": tagv, "mup_scaling_depth": depthv, "requires_grad": not nm.startswith("emb")})
         for h, fn_ in HOOKS.items():
             p_.attrs[h] = Bound(fn_, p_)
         return p_
 
     def layer(cls_name: str, nm: str, tagv: str, depthv: Any) -> Obj:
-        return Obj(cls_name, attrs={"weight": tagged(f"{nm}.w", tagv, depthv), "bias": tagged(f"{nm}.b", "bias", depthv), "_children": [], "__module__": "user_code.layers"}, term=None)
+        w_, b_ = tagged(f"{nm}.w", tagv, depthv), tagged(f"{nm}.b", "bias", depthv)
+        return Obj(cls_name, attrs={"weight": w_, "bias": b_, "_params": [("weight", w_), ("bias", b_)], "_children": [], "__module__": "user_code.layers"}, term=None)
 
     layers = [("lin", layer("torch.nn.Linear", "lin", "weight", 3)), ("emb", layer("torch.nn.Embedding", "emb", "weight", None)), ("ln", layer("torch.nn.LayerNorm", "ln", "norm", None))]
     mod = Obj("torch.nn.Module", term=None)
-    mod.attrs.update({"forward": O("m.forward"), "_children": list(layers), "__module__": "user_code.models"})
+    mod.attrs.update({"forward": O("m.forward"), "_children": list(layers), "_params": [], "__module__": "user_code.models"})
     cons = f"{US}::unit_scale::parameters"
     try:
         res = it_u.call_function(us, [mod], {})
@@ -215,6 +217,11 @@ def check(report: Report, repo: Repo) -> None:
                     okh = all(isinstance(cp_.attrs.get(h), Bound) and getattr(cp_.attrs[h].func, "node", None) is HOOKS[h].node and cp_.attrs[h].self_val is cp_ for h in HOOKS)
                     report.add("R4-transforms", f"{cons}[{nm}.{pn}]::hooks", okh, "and its copy / pickle hooks (bound to itself), so later copies keep the tags too", sorted(h for h in HOOKS if h in cp_.attrs), sorted(HOOKS))
         report.floor("parameters followed through unit_scale", n_par, 6)
+        # dtype typestate: a transform that re-binds a parameter's storage must take the dtype from that
+        # parameter (a tensor of the process default dtype silently undoes an earlier .half() / .double())
+        rebinds = [e for e in it_u.events if e.kind == "setattr" and e["attr"] == "data" and isinstance(e["obj"], Obj) and e["obj"].cls_name == "torch.nn.Parameter"]
+        bad_rb = [e for e in rebinds if isinstance(getattr(e["value"], "dtype", None), str)]
+        report.add("R4-transforms", f"{US}::unit_scale::parameter-dtype", not bad_rb, "unit_scale never re-binds a parameter's .data to a tensor of a fixed / default dtype (the dtype the user converted the model to survives)", [f"{fmt(e['obj'])}.data = {fmt(e['value'])[:80]} ({e['value'].dtype}) at {e.where}" for e in bad_rb], [], nontrivial=False)
     except Unsupported as ex:
         report.add("R4-transforms", cons, None, f"outside fragment: {ex}")
     # no library transform converts, freezes or un-freezes the parameters of the module it returns: the only
